@@ -50,7 +50,13 @@ class Recorder:
             if argidx is None:
                 st.trace = st.trace + [(letter, None, 0)]
             else:
-                c, k = coeff_of(args[argidx], dt)
+                try:
+                    c, k = coeff_of(args[argidx], dt)
+                except Unsupported as ex:
+                    # the sub-step length depends on state other than the step size dt: recorded, reported by W.run
+                    st.trace = st.trace + [(letter + "?", None, 0)]
+                    st.ghost["word_errors"] = st.ghost.get("word_errors", ()) + ("%s(%s)" % (letter, str(args[argidx])[:120]),)
+                    return None
                 st.trace = st.trace + [(letter, c, k)]
             return None
         return rec
